@@ -285,7 +285,7 @@ func buildRoutes(ca *lib.CA) []*route {
 		withLimits := func(c *forwarder.HTTPProxyConfig) {
 			c.ReadHeaderTimeout = 400 * time.Millisecond
 			c.IdleTimeout = 800 * time.Millisecond
-			if len(name)%2 == 0 {
+			if len(name)%2 == 0 || name == "upgrade" {
 				// half of the routes log exchanges in body mode: the logging layer then handles
 				// the bodies of every message, and a 2xx CONNECT has none to handle
 				c.LogHTTPMode = httplog.Body
